@@ -375,8 +375,8 @@ class Executor:
         i = 0
         n = len(s)
         while i < n:
-            if s.startswith('::<', i) and not s.startswith('::<impl ', i):
-                # skip balanced angle group
+            if s.startswith('::<', i) and not (s.startswith('::<impl ', i) and Executor._angle_followed_by_path(s, i + 2)):
+                # skip balanced angle group (but keep `path::<impl T>::method` segments)
                 d = 0
                 j = i + 2
                 while j < n:
@@ -392,6 +392,21 @@ class Executor:
             out.append(s[i])
             i += 1
         return ''.join(out)
+
+    @staticmethod
+    def _angle_followed_by_path(s, i):
+        d = 0
+        n = len(s)
+        j = i
+        while j < n:
+            if s[j] == '<':
+                d += 1
+            elif s[j] == '>' and s[j - 1] != '-':
+                d -= 1
+                if d == 0:
+                    return s.startswith('::', j + 1)
+            j += 1
+        return False
 
     def canon_call(self, func):
         """canonical form of a call-site function text -> (key, selfty, trait, method, raw)"""
@@ -2021,6 +2036,9 @@ class Executor:
         hook = self.cfg.get('env_assume')
         if hook is not None:
             hook(self, st, key, v, dty)
+        eff = self.cfg.get('env_effect')
+        if eff is not None:
+            eff(self, st, key, args, nm)
         stop = self.cfg.get('stop_when')
         if stop is not None and stop(st, key):
             st.status = 'bound'
